@@ -297,27 +297,49 @@ end traversal
 
 /-! #### the call log only grows -/
 
-/-- the call log only grows -/
-def Ext (a b : St) : Prop := ∃ es, b.events = a.events ++ es
-theorem Ext.refl (a : St) : Ext a a := ⟨[], by simp⟩
+/-- events the executor itself emits: body invocations, run_if evaluations, phase diagnosers -/
+def isExecEv : Ev → Bool
+  | .body _ _ | .runIf _ _ | .diag _ _ _ => true
+  | _ => false
+
+/-- the call log only grows, and only by executor events -/
+def Ext (a b : St) : Prop := ∃ es, b.events = a.events ++ es ∧ ∀ e ∈ es, isExecEv e = true
+theorem Ext.refl (a : St) : Ext a a := ⟨[], by simp, by simp⟩
 theorem Ext.trans {a b c : St} (h1 : Ext a b) (h2 : Ext b c) : Ext a c := by
-  obtain ⟨e1, h1⟩ := h1; obtain ⟨e2, h2⟩ := h2
-  exact ⟨e1 ++ e2, by rw [h2, h1, List.append_assoc]⟩
-theorem Ext.of_eq {a b : St} (h : b.events = a.events) : Ext a b := ⟨[], by simp [h]⟩
+  obtain ⟨e1, h1, q1⟩ := h1; obtain ⟨e2, h2, q2⟩ := h2
+  refine ⟨e1 ++ e2, by rw [h2, h1, List.append_assoc], ?_⟩
+  intro e he; rcases List.mem_append.mp he with h | h
+  · exact q1 e h
+  · exact q2 e h
+theorem Ext.of_eq {a b : St} (h : b.events = a.events) : Ext a b := ⟨[], by simp [h], by simp⟩
+
+theorem bodyEvs_exec (id k n : Nat) : ∀ e ∈ [Ev.body id k] ++ (List.range n).map (fun j => Ev.diag id k j), isExecEv e = true := by
+  intro e he
+  simp only [List.cons_append, List.nil_append, List.mem_cons, List.mem_map, List.mem_range] at he
+  rcases he with rfl | ⟨j, _, rfl⟩ <;> rfl
 
 theorem once_ext (cfg : Cfg) (p : Phase) (sub : Option Nat) (isLast : Bool) (st : St) :
     Ext st (executePhaseOnce cfg p sub isLast st).1 := by
   unfold executePhaseOnce
   cases hri : p.opts.runIf with
-  | none => exact ⟨_, by simp [addDiagnoses]; rfl⟩
+  | none =>
+    exact ⟨[Ev.body p.id (count st.bodyCalls p.id)] ++ (List.range (finalizeInvocation cfg p.opts sub.isSome isLast
+      (p.beh (count st.bodyCalls p.id))).diagsRun).map (fun j => Ev.diag p.id (count st.bodyCalls p.id) j),
+      by simp [addDiagnoses], bodyEvs_exec _ _ _⟩
   | some f =>
     simp only
     cases hf : f (count st.runIfCalls p.id) with
-    | none => exact ⟨_, by simp; rfl⟩
+    | none => exact ⟨[Ev.runIf p.id (count st.runIfCalls p.id)], by simp, by intro e he; simp at he; subst he; rfl⟩
     | some b =>
       cases b
-      · exact ⟨_, by simp; rfl⟩
-      · exact ⟨_, by simp [addDiagnoses, List.append_assoc]; rfl⟩
+      · exact ⟨[Ev.runIf p.id (count st.runIfCalls p.id)], by simp, by intro e he; simp at he; subst he; rfl⟩
+      · refine ⟨[Ev.runIf p.id (count st.runIfCalls p.id)] ++ ([Ev.body p.id (count st.bodyCalls p.id)] ++
+          (List.range (finalizeInvocation cfg p.opts sub.isSome isLast (p.beh (count st.bodyCalls p.id))).diagsRun).map
+            (fun j => Ev.diag p.id (count st.bodyCalls p.id) j)), by simp [addDiagnoses, List.append_assoc], ?_⟩
+        intro e he
+        rcases List.mem_append.mp he with h | h
+        · simp at h; subst h; rfl
+        · exact bodyEvs_exec _ _ _ e h
 
 theorem loop_ext (cfg : Cfg) (p : Phase) (sub : Option Nat) (limit : Nat) :
     ∀ (fuel n : Nat) (st : St), Ext st (executePhaseLoop cfg p sub limit fuel n st).1
